@@ -40,6 +40,8 @@ pub fn primes(n: u32) -> (primes: Vec<u32>)
     ensures
         all_prime(primes@), increasing(primes@), complete(primes@),
         primes.len() <= n, n >= 1 ==> primes.len() >= 1,
+        n >= 2 ==> primes.len() == n || exhaustive(primes@, primes_bound(n)),
+        forall|idx: int| 0 <= idx < primes.len() ==> (#[trigger] primes[idx] as int) < primes_bound(n),
 {
     // The n-th prime is always less than n * n.bit_length()
     // except for n = 1.
@@ -78,10 +80,13 @@ pub fn primes(n: u32) -> (primes: Vec<u32>)
         invariant
             verif_end_i == sieve.len(), 1 <= verif_it_i <= verif_end_i, sieve.len() == len, len == bound as int / 2, 100 <= bound < 0x1_0000_0000,
             primes.len() >= 1, primes[0] == 2, all_prime(primes@), increasing(primes@), n >= 2, primes.len() <= n,
+            forall|idx: int| 0 <= idx < primes.len() ==> (#[trigger] primes[idx] as int) < 2 * verif_end_i,
         ensures all_prime(primes@), increasing(primes@), primes.len() >= 1, primes[0] == 2, primes.len() <= n,
             complete(primes@) || (
                 (forall|idx: int| 0 <= idx < primes.len() ==> (#[trigger] primes[idx] as int) < 2 * verif_end_i + 1)
                 && (forall|j: int| 1 <= j < verif_end_i && #[trigger] is_prime_dv((2 * j + 1) as nat) ==> in_list(primes@, 2 * j + 1))),
+            primes.len() == n || (forall|j: int| 1 <= j < verif_end_i && #[trigger] is_prime_dv((2 * j + 1) as nat) ==> in_list(primes@, 2 * j + 1)),
+            forall|idx: int| 0 <= idx < primes.len() ==> (#[trigger] primes[idx] as int) < 2 * verif_end_i,
         decreases verif_end_i - verif_it_i
     {
         let i = verif_it_i; verif_it_i += 1;
@@ -199,6 +204,16 @@ pub fn primes(n: u32) -> (primes: Vec<u32>)
                 }
             }
             assert(false);
+        }
+        if primes.len() != n {
+            assert forall|q: nat| #[trigger] is_prime_dv(q) && q < 2 * (primes_bound(n) / 2) implies in_list(primes@, q as int) by {
+                if q == 2 { assert(primes@[0] as int == 2); }
+                else {
+                    let j = lemma_odd_prime_shape(q);
+                    assert(j < verif_end_i);
+                    assert(is_prime_dv((2 * j + 1) as nat));
+                }
+            }
         }
     }
     primes
